@@ -113,6 +113,16 @@ class TExc(Ty):
         return "(Except Err Unit)"
 
 
+class TFun(Ty):
+    """an abstract callable handed to the translated function (an observer that takes arguments)"""
+    def __init__(self, args, ret, raises):
+        self.args, self.ret, self.raises = list(args), ret, raises
+
+    def lean(self):
+        r = "Except Err {}".format(self.ret.lean()) if self.raises else self.ret.lean()
+        return "(" + " → ".join([a.lean() for a in self.args] + [r]) + ")"
+
+
 class TUnion(Ty):
     """value of one of two types (a function returning a scalar or a sequence): Lean `Sum`"""
     def __init__(self, a, b):
